@@ -15,6 +15,12 @@ def sh(cmd, **kw):
 
 def main():
     args = sys.argv[1:]
+    repo = "/repo"
+    if "--repo" in args:       # a scratch worktree instead of /repo (with a scratch copy of /verif: nothing shared with running checks)
+        i = args.index("--repo")
+        repo = args[i + 1]
+        args = args[:i] + args[i + 2:]
+    env = dict(os.environ, PYTRAPIC_REPO=repo)
     also = []
     if "--also" in args:
         i = args.index("--also")
@@ -25,18 +31,18 @@ def main():
         d = Path(d).resolve()
         meta = json.loads((d / "meta.json").read_text())
         prop = meta["property"]
-        st = sh("git -C /repo status --short")
+        st = sh(f"git -C {repo} status --short")
         if st.stdout.strip():
-            print("refusing: /repo is not clean:", st.stdout)
+            print(f"refusing: {repo} is not clean:", st.stdout)
             return 2
-        ap = sh(f"git -C /repo apply {d / 'patch.diff'}")
+        ap = sh(f"git -C {repo} apply {d / 'patch.diff'}")
         if ap.returncode != 0:
             print(d, "patch does not apply:", ap.stderr[:300])
             continue
         try:
             for p in [prop] + also:
                 t0 = time.time()
-                r = sh(f"./check {p} --tier quick", cwd=VERIF, timeout=3600)
+                r = sh(f"./check {p} --tier quick", cwd=VERIF, timeout=3600, env=env)
                 lines = [l for l in r.stdout.splitlines() if l.startswith("VIOLATION") or l.startswith("KNOWN-FINDING") or l.startswith("[")]
                 verdict = {0: "MISSED", 1: "DETECTED", 2: "INFRA"}.get(r.returncode, f"rc={r.returncode}")
                 replay = ""
@@ -52,7 +58,7 @@ def main():
                     print("   stderr:", r.stderr[-500:])
                 results[f"{d.parent.name}-{d.name}/{p}"] = verdict
         finally:
-            sh("git -C /repo checkout -- .")
+            sh(f"git -C {repo} checkout -- .")
     return 0
 
 
